@@ -9,6 +9,10 @@ CHECKS = {
          "generated-input search: seeded tape-decoded (payload, builder configuration) rows with boundary-biased lengths; round-trip oracle through rPGP's reader under generated source/consumer schedules plus an independent de-framer + flate2/bzip2 decoder on unencrypted output; decoy-key negative control",
          "exploration: ~15k (thorough ~275k) builder configurations x boundary lengths (k*{512,1024,8192,partial chunk,AEAD chunk,2*(AEAD+16)} -37..+3) covering every source kind, compression, 0..3 signers over all zoo algorithms, SEIPDv1 x 11 ciphers, SEIPDv2 x 9 AEAD/cipher pairs x 17 chunk sizes, password/public-key/anonymous ESKs, armor; each opened by session key, each password or each recipient (locked/unlocked)",
          "cannot show absence; lengths above 3 MiB (20 MiB in the very-large group) and 1 MiB+ AEAD chunks are only sampled; SEIPDv1 multi-password false-accept is a recorded finding"),
+ "C02": ("DESIGN.md §4 C02",
+         "generated-input search over (signed artifact, single perturbation): artifacts made with rPGP's signing APIs, perturbations at content level, at signature-packet field level (located by an own field-layout decoder) and at verifying-key level; oracle: positive control, then every applicable verification entry point must return Err unless the artifact was rejected by the parser or is semantically identical",
+         "exploration: ~27k (thorough ~500k) cases over detached/one-pass/config data signatures (binary and text, lengths incl. 512k-1..512k+2), cleartext documents, certifications/bindings/direct-key/revocation signatures and whole zoo certificates (public and secret) x 12 signer algorithms; perturbation classes: bit flip, truncation, extension, swap, insertion, line-ending sensitive edits, other uid/subkey/signee key, type/pk-alg/hash-alg, any bit of hashed area/salt/signature value, hashed length, decoy key / same material with other creation time / other key version",
+         "unhashed area, left-16 and (r, n-s) malleability are not part of the property; same key material under another identity is only required to fail where the interface matches the issuer"),
  "C03": ("DESIGN.md §4 C03",
          "generated-input search + exhaustive small-scope enumeration of tampering: mutation of rPGP-built SEIPD containers (re-framed by an independent framer), oracle = stream must end in an error, zero bytes released in default SEIPDv1 mode, released bytes a prefix of the true plaintext for SEIPDv2; positive control on the unmodified container",
          "exploration; exhaustive over every single-bit flip and truncation offset of ~35 (thorough ~65) small messages (quick: every third byte position), sampled over bit flips, truncations, appends, AEAD chunk drop/dup/swap/rotate/truncation-attack/tag surgery, CFB block surgery, all header fields x all 256 values, x consumer patterns x SEIPDv1 read modes x opener (session key, password, recipient)",
